@@ -287,12 +287,13 @@ func genItems(n int) string {
 
 // C07.wf — every prototype the compiler produces is well-formed, or the compiler reports an error.
 //
-//verif:harness prop=C07 tier=quick bounds="the 60 C01 templates plus size-stress programs: locals in {1,100,198,199,200,201,250}, constants in {250,255,256,257,300,511,512,513,600}, constructor items in {1,49,50,51,100,120}; concrete programs (no symbolic input), each compiled once"
+//verif:harness prop=C07 tier=quick bounds="all C01-C05 differential templates plus size-stress programs: locals in {1,100,198,199,200,201,250}, constants in {250,255,256,257,300,511,512,513,600}, constructor items in {1,49,50,51,100,120}; concrete programs (no symbolic input), each compiled once"
 func H_C07_wf() {
 	var src string
 	switch VChoice(4) {
 	case 0:
-		src = c01Templates[VChoice(len(c01Templates))].src
+		all := append(append(append(append(append([]diffTmpl{}, c01Templates...), c02Templates...), c03Templates...), c04Templates...), c05Templates...)
+		src = all[VChoice(len(all))].src
 	case 1:
 		src = genLocals([]int{1, 100, 198, 199, 200, 201, 250}[VChoice(7)])
 	case 2:
@@ -382,5 +383,53 @@ func H_C07_regbase() {
 		VAssert(problem == "", "regbase: prototype compiled from a high register base is well-formed: "+problem)
 		VReach("compiled")
 	}
+	VReach("end")
+}
+
+
+// bigCtorChunk builds the AST of
+//   local t = {7, 7, ... n items}   (or: local t; t = {...})
+//   local after = 'ran'; return #t, t[n], after
+// directly (parsing 25k items through the interpreted yacc tables would dominate the run).
+func bigCtorChunk(n int, assignForm bool) []ast.Stmt {
+	fields := make([]*ast.Field, n)
+	for i := range fields {
+		fields[i] = &ast.Field{Value: &ast.NumberExpr{Value: "7"}}
+	}
+	tbl := &ast.TableExpr{Fields: fields}
+	var stmts []ast.Stmt
+	if assignForm {
+		stmts = append(stmts, &ast.LocalAssignStmt{Names: []string{"t"}}, &ast.AssignStmt{Lhs: []ast.Expr{&ast.IdentExpr{Value: "t"}}, Rhs: []ast.Expr{tbl}})
+	} else {
+		stmts = append(stmts, &ast.LocalAssignStmt{Names: []string{"t"}, Exprs: []ast.Expr{tbl}})
+	}
+	stmts = append(stmts,
+		&ast.LocalAssignStmt{Names: []string{"after"}, Exprs: []ast.Expr{&ast.StringExpr{Value: "ran"}}},
+		&ast.ReturnStmt{Exprs: []ast.Expr{
+			&ast.UnaryLenOpExpr{Expr: &ast.IdentExpr{Value: "t"}},
+			&ast.AttrGetExpr{Object: &ast.IdentExpr{Value: "t"}, Key: &ast.NumberExpr{Value: itoa(n)}},
+			&ast.IdentExpr{Value: "after"}}})
+	for _, st := range stmts {
+		st.SetLine(1)
+		st.SetLastLine(1)
+	}
+	return stmts
+}
+
+// C07.bigctor — constructors beyond 511 SETLIST batches use the extension word correctly.
+//
+//verif:harness prop=C07,C01 tier=quick bounds="table constructors with n positional items, n in {25550, 25551, 25601} (batch 511/512 boundary), in initialisation and assignment form; AST built directly, compiled, checked for well-formedness and executed"
+func H_C07_bigctor() {
+	n := []int{25550, 25551, 25601}[VChoice(3)]
+	assignForm := VChoice(2) == 1
+	L := newL(Options{RegistrySize: 1024}, BaseLibName)
+	proto, err := Compile(bigCtorChunk(n, assignForm), "big")
+	VAssert(err == nil, "bigctor: compiles")
+	VAssert(wfProto(proto) == "", "bigctor: prototype is well-formed: "+wfProto(proto))
+	L.Push(L.NewFunctionFromProto(proto))
+	VAssert(L.PCall(0, 3, nil) == nil, "bigctor: runs")
+	VAssert(L.Get(1) == LNumber(n), "bigctor: every positional item is stored (#t)")
+	VAssert(L.Get(2) == LNumber(7), "bigctor: the last item is stored")
+	VAssert(L.Get(3) == LString("ran"), "bigctor: the statement after the constructor is executed")
 	VReach("end")
 }
